@@ -779,3 +779,38 @@ RULES.append(('16.M', 'collection mutations: every reviewed (function, stored co
 RULES.append(('16.A', 'enum accessors agree across sibling variants: an accessor that returns the payload field `x` for one variant returns it for every variant whose payload carries a field of that name and type (a variant moved to the `=> None` arm) - rules/accessors.py', lambda F: accessors.for_property(F, 'C16', '16.A')))
 RULES.append(('16.G', 'guard census: no reviewed call of a workspace function and no reviewed mutation of a stored collection gained a controlling branch condition (an added `&& cond`, early return / continue, more specific match arm in front of an act); counts per call site, name free (rules/guards.py)', lambda F: guards.for_property(F, 'C16', '16.G')))
 RULES.append(('16.W', 'field assignments: every reviewed (function, Type.field) direct assignment is still made - state that a path no longer updates, or updates only conditionally (get_or_insert for an overwrite); generalises NN.R (rules/writes.py)', lambda F: writes.for_property(F, 'C16', '16.W')))
+
+def r16m(F):
+	"""PaymentPath::max_final_value_msat: when the aggregated fees of the hops AFTER hop idx overflow, the hop reported for discarding is the first of
+	those hops - the index returned by the map_err closure is the same linear expression (idx + 1) as the number of hops skipped before
+	aggregating.  Reporting idx itself marks the payer's own first-hop channel (overflow is always detected at idx = 0) as exhausted: no later
+	iteration can leave the payer over it, and get_route fails although a valid path exists"""
+	fn = R + 'PaymentPath::max_final_value_msat'
+	try:
+		fu = F.func(fn)
+	except AnchorMissing as e:
+		return [Result('16.m', False, 'anchor:max_final_value_msat', str(e))]
+	ex = Expr(fu)
+	skips = []
+	for b, ci in fu.calls():
+		f = norm(ci.get('t') or ci.get('f') or '')
+		if f.endswith('Iterator::skip') and len(ci['args']) == 2:
+			skips.append(linear(ex.of_operand(ci['args'][1])))
+	rets = []
+	for cn in F.closures_of(F.fn(fn)):
+		cu = F.func(cn)
+		if (cu.locals[0].get('ty') or '') != 'usize':
+			continue
+		exc = Expr(cu)
+		for d in cu.defs.get(0, []):
+			if d[1] != 'T':
+				rets.append((cn, linear(exc.of_rvalue(d[3]))))
+	if len(skips) != 1 or len(rets) != 1:
+		return [Result('16.m', False, 'anchor:skip-or-error-index', 'max_final_value_msat: expected one skip(..) and one usize-returning error closure, found %d / %d' % (len(skips), len(rets)), where=F.where(fn))]
+	(ts, ks), (cn, (tr, kr)) = skips[0], rets[0]
+	# one variable with coefficient 1 on both sides (the loop index: a captured upvar in the closure, the expanded enumerate() element outside) and
+	# the same constant offset
+	ok = ks == kr and sorted(ts.values()) == sorted(tr.values()) == [1]
+	return [Result('16.m', ok, ('ok:' if ok else 'shape:') + 'overflow-blames-first-aggregated-hop', 'max_final_value_msat: the hop reported when the downstream fees overflow (%s%+d) is the first hop whose fees were aggregated (skip %s%+d)' % (list(tr)[0] if tr else '', kr, list(ts)[0] if ts else '', ks) if ok else 'max_final_value_msat: fees are aggregated over the hops after skipping %s%+d, but on overflow hop %s%+d is reported for discarding: the hop that is marked exhausted is not one of the hops whose fees overflowed (at idx = 0 it is the payer\'s own first hop)' % (list(ts)[0] if ts else '?', ks, list(tr)[0] if tr else '?', kr), 2, where=F.where(cn))]
+
+RULES.append(('16.m', 'max_final_value_msat: the hop reported on fee-aggregation overflow is the first hop whose fees were aggregated (error index == skip count, linear normal forms)', r16m))
